@@ -72,6 +72,18 @@ def fault_site_ok(filename, lineno):
                 for ln in range(st.lineno, (st.end_lineno or st.lineno) + 1):
                     ex.add(ln)
         if tree is not None:
+            # a statement that calls nothing (a plain assignment, `n += 1`, `pass`,
+            # `return x`) cannot fail in a real execution; an exception "between"
+            # two such statements would break correct lock-protected two-step
+            # updates that no real fault can break
+            simple = (ast.Assign, ast.AugAssign, ast.AnnAssign, ast.Return, ast.Expr, ast.Delete,
+                      ast.Pass, ast.Break, ast.Continue, ast.Global, ast.Nonlocal, ast.Assert,
+                      ast.Raise)
+            for node in ast.walk(tree):
+                if isinstance(node, simple) and not any(
+                        isinstance(sub, (ast.Call, ast.Await)) for sub in ast.walk(node)):
+                    for ln in range(node.lineno, (node.end_lineno or node.lineno) + 1):
+                        ex.add(ln)
             for node in ast.walk(tree):
                 if isinstance(node, (ast.With, ast.AsyncWith)):
                     first = node.body[0].lineno if node.body else node.lineno + 1
